@@ -590,6 +590,48 @@ def held_item_kept(index: RepoIndex, rep, rule: str) -> None:
                       'held item stored as given')
 
 
+def _view_position_counterexample(p: ast.AST):
+    """(area, value, expected) at the first constant area where `Position(a, b)` written with
+    integer arithmetic on the area's bounds differs from (-ymin, -xmin); None when it cannot
+    be folded or agrees everywhere tried"""
+    if not (isinstance(p, ast.Call) and src(p.func) == 'Position' and len(p.args) == 2
+            and not p.keywords):
+        return None
+
+    class Cannot(Exception):
+        pass
+
+    def ev(e, a):
+        ymin, ymax, xmin, xmax = a
+        t = src(e)
+        table = {'area.ymin': ymin, 'area.ymax': ymax, 'area.xmin': xmin, 'area.xmax': xmax,
+                 'area.height': ymax - ymin + 1, 'area.width': xmax - xmin + 1}
+        if t in table:
+            return table[t]
+        if isinstance(e, ast.Constant) and type(e.value) is int:
+            return e.value
+        if isinstance(e, ast.UnaryOp) and isinstance(e.op, (ast.USub, ast.UAdd)):
+            v = ev(e.operand, a)
+            return -v if isinstance(e.op, ast.USub) else v
+        if isinstance(e, ast.BinOp) and isinstance(e.op, (ast.Add, ast.Sub, ast.Mult,
+                                                          ast.FloorDiv, ast.Mod)):
+            l, r = ev(e.left, a), ev(e.right, a)
+            if isinstance(e.op, (ast.FloorDiv, ast.Mod)) and r == 0:
+                raise Cannot
+            return {ast.Add: l + r, ast.Sub: l - r, ast.Mult: l * r,
+                    ast.FloorDiv: l // r if r else 0, ast.Mod: l % r if r else 0}[type(e.op)]
+        raise Cannot
+    for a in ((-6, 0, -3, 3), (-2, 2, -2, 2), (-3, 1, -1, 4), (0, 4, 0, 2), (-1, 0, -5, 1)):
+        try:
+            got = (ev(p.args[0], a), ev(p.args[1], a))
+        except Cannot:
+            return None
+        want = (-a[0], -a[2])
+        if got != want:
+            return (f'Area(({a[0]}, {a[1]}), ({a[2]}, {a[3]}))', got, want)
+    return None
+
+
 def agent_rule(index, rep, rule, pipe: Pipeline) -> None:
     pose_coherence(index, rep, rule)
     held_item_kept(index, rep, rule)
@@ -624,6 +666,16 @@ def agent_rule(index, rep, rule, pipe: Pipeline) -> None:
             gi_ = GeoInterp(Geometry(index))
             pv = gi_.eval(p, {'area': A('a')}, fn.module)
         except Exception as ex_:      # noqa: BLE001
+            # integer arithmetic on the bounds of the area the algebra does not read (`//`):
+            # folded at constant areas -- a disagreement with (-ymin, -xmin) at one of them is
+            # a counterexample; agreement at all of them decides nothing
+            bad_at = _view_position_counterexample(p)
+            if bad_at is not None:
+                rep.violation(rule, OBS, 'from_visibility', fn.node.lineno, src(p),
+                              f"the agent's view position `{src(p)[:80]}` is {bad_at[1]} for the "
+                              f"area {bad_at[0]}, not (-area.ymin, -area.xmin) = {bad_at[2]}: the "
+                              f"agent is reported on a cell of the view that is not its own")
+                return
             raise AnalysisError(f'from_visibility: the agent\'s view position `{src(p)[:80]}` '
                                 f'is not readable in the pose algebra ({str(ex_)[:80]})')
         if not (isinstance(pv, tuple) and pv and pv[0] == 'P'):
